@@ -68,6 +68,12 @@ fn st4(v: pn::u32x4x4) -> Vec<u8> {
     o
 }
 
+/// the 15 set partitions of four lanes, as class index per lane
+const LANE_PARTITIONS: [[usize; 4]; 15] = [
+    [0, 0, 0, 0], [0, 0, 0, 1], [0, 0, 1, 0], [0, 1, 0, 0], [0, 1, 1, 1], [0, 0, 1, 1], [0, 1, 0, 1], [0, 1, 1, 0],
+    [0, 0, 1, 2], [0, 1, 0, 2], [0, 1, 2, 0], [0, 1, 1, 2], [0, 1, 2, 1], [0, 1, 2, 2], [0, 1, 2, 3],
+];
+
 macro_rules! vec4_ops {
     ($out:ident, $ty:expr, $V:ty, $ld:ident, $st:ident, $wfn:ident, $bfn:ident, $word:ty, $bits:expr, $ops:expr, $amounts:expr) => {
         for (a, b) in $ops.iter() {
@@ -94,6 +100,26 @@ macro_rules! vec4_ops {
             let am: Vec<$word> = $wfn(b).iter().map(|x| 1 + (x % ($bits as $word - 1))).collect();
             let amb = $bfn(&am);
             rec($out, $ty, "rotate_right_v", a, &amb, 0, &mut || { let mut x = $ld(a); let r = x.rotate_right(<$V>::from_slice_unaligned(&am)); $st(r) });
+        }
+        // per-lane amounts under every equality pattern between the four lanes (the 15 set partitions of {0,1,2,3}):
+        // random amounts make two lanes equal with probability 1/bits only, and never in a chosen arrangement
+        for (pi, part) in LANE_PARTITIONS.iter().enumerate() {
+            for rep in 0..2usize {
+                let (a, b) = &$ops[(pi + 3 * rep) % $ops.len()];
+                let base: Vec<$word> = $wfn(b).iter().enumerate().map(|(i, x)| 1 + ((x.wrapping_add((7 * i + 13 * rep) as $word)) % ($bits as $word - 1))).collect();
+                // make the class representatives pairwise distinct
+                let mut reps: Vec<$word> = vec![];
+                for i in 0..4usize {
+                    let mut v = base[i];
+                    while reps.contains(&v) {
+                        v = 1 + (v % ($bits as $word - 1));
+                    }
+                    reps.push(v);
+                }
+                let am: Vec<$word> = part.iter().map(|&cl| reps[cl]).collect();
+                let amb = $bfn(&am);
+                rec($out, $ty, "rotate_right_v", a, &amb, 0, &mut || { let mut x = $ld(a); let r = x.rotate_right(<$V>::from_slice_unaligned(&am)); $st(r) });
+            }
         }
     };
 }
